@@ -12,22 +12,33 @@ let gcd00 = "Undocumented:thegreatestcommondivisorisnotdefinedbetweenzeros!"
 let cert_verdict ?(extra = "") ok want = if ok then pass ~extra () else fail want
 
 let same asis got = "asis=" ^ (if split_ws asis = got then "same" else "diff")
+let rec nat_of n = if n <= 0 then O else S (nat_of (n - 1))
+let fuel_small = nat_of 4000
+(* text of an as-is result in the answer format of the harness *)
+let res_text f = function
+  | Ok v -> "ok " ^ f v
+  | Panic r -> "panic " ^ (match r with RootZeroth -> "RootZeroth" | RootNegative -> "RootNegative" | LogOperand -> "LogOperand" | GcdZeroZero -> gcd00 | _ -> "?")
+  | Err _ -> "err" | OutOfFuel -> "outoffuel"
+(* f32 answers are written ~hex by the harness (so that they can be told from integers) *)
+let unf s = if String.length s > 0 && s.[0] = '~' then String.sub s 1 (String.length s - 1) else s
 
 (* ------------------------------------------------------------------ gcd *)
-let judge_gcd a b got =
+let judge_gcd ?(asis = "") a b got =
+  let fid = if asis = "" then "" else " " ^ same asis got in
   match gcd_spec a b with
-  | Panic _ -> expect ~nt:false ("panic " ^ gcd00) got
+  | Panic _ -> expect ~nt:false ~extra:fid ("panic " ^ gcd00) got
   | Ok g ->
       let cls = Printf.sprintf "cls=gcd-%dx%d" (min 4 ((bits a + 63) / 64)) (min 4 ((bits b + 63) / 64)) in
-      expect ~extra:cls ("ok " ^ hx g) got
+      expect ~extra:(cls ^ fid) ("ok " ^ hx g) got
   | _ -> fail "spec"
 
-let judge_gcd_ext a b got =
+let judge_gcd_ext ?(asis = "") a b got =
+  let fid = if asis = "" then "" else " " ^ same asis got in
   match gcd_spec a b with
-  | Panic _ -> expect ~nt:false ("panic " ^ gcd00) got
+  | Panic _ -> expect ~nt:false ~extra:fid ("panic " ^ gcd00) got
   | Ok g -> (
       let wa = (bits a + 63) / 64 and wb = (bits b + 63) / 64 in
-      let cls = Printf.sprintf "cls=gcdext-%dx%d" (min 4 wa) (min 4 wb) in
+      let cls = Printf.sprintf "cls=gcdext-%dx%d" (min 4 wa) (min 4 wb) ^ fid in
       match got with
       | [ "ok"; g'; s; t ] ->
           let g' = z g' and s = z s and t = z t in
@@ -43,13 +54,20 @@ let reason_str = function
 let root_text n x =
   if Zar.fits_int n && Zar.to_int n <= 100000 then hx (Zar.root (Zar.abs x) (Zar.to_int n)) else "1-or-0"
 
-let judge_root ~signed n x got =
+let judge_root ?(model = true) ~signed n x got =
+  (* fidelity of the as-is Newton model (skipped for huge degrees: the model would build g^(n-1)) *)
+  let fid =
+    if (not model) || (Zar.gt n (zi 3000) && Zar.gt (zi (bits x)) n) then ""
+    else
+      let r = if signed then inth_root_asis fuel_small x n else nth_root_asis fuel_small x n in
+      " " ^ same (res_text hx r) got
+  in
   match root_panic n x with
-  | Some r -> expect ~nt:false ("panic " ^ reason_str r) got
+  | Some r -> expect ~nt:false ~extra:fid ("panic " ^ reason_str r) got
   | None -> (
       let want = "ok " ^ (if Zar.sign x < 0 then "-" else "") ^ root_text n x in
       let cls = "cls=root-" ^ (if Zar.equal n (zi 2) then "2" else if Zar.equal n (zi 3) then "3" else "n")
-                ^ (if Zar.sign x = 0 then "-zero" else if Zar.sign x < 0 then "-neg" else "") in
+                ^ (if Zar.sign x = 0 then "-zero" else if Zar.sign x < 0 then "-neg" else "") ^ fid in
       match got with
       | [ "ok"; r ] ->
           let r = z r in
@@ -72,7 +90,8 @@ let judge_root_rem n x got =
 
 (* ------------------------------------------------------------------ ilog *)
 let judge_ilog x b got =
-  if ilog_panic x b then expect ~nt:false "panic LogOperand" got
+  let fid = match ilog_shortcuts (Zar.abs x) b with Some r -> " path=shortcut " ^ same (res_text hx r) got | None -> " path=estimate" in
+  if ilog_panic x b then expect ~nt:false ~extra:fid "panic LogOperand" got
   else
     match got with
     | [ "ok"; e ] ->
@@ -80,7 +99,7 @@ let judge_ilog x b got =
         let want = "ok floor(log_b|x|)" in
         if Zar.gt e (zi (bits x)) then fail want
         else
-          let cls = Printf.sprintf "cls=ilog-x%d-b%d" (min 4 ((bits x + 63) / 64)) (min 4 ((bits b + 63) / 64)) in
+          let cls = Printf.sprintf "cls=ilog-x%d-b%d" (min 4 ((bits x + 63) / 64)) (min 4 ((bits b + 63) / 64)) ^ fid in
           cert_verdict ~extra:cls (ilog_cert x b e) want
     | _ -> fail "ok floor(log_b|x|)"
 
@@ -89,10 +108,10 @@ let neg_inf = "ff800000"
 let pos_inf = "7f800000"
 
 (* x = p / q > 0 *)
-let judge_log2 ?(cls = "") (p : Zar.t) (q : Zar.t) got =
+let judge_log2 ?(cls = "") ?(fid = "") (p : Zar.t) (q : Zar.t) got =
   match got with
   | [ "ok"; lb; ub ] ->
-      let lbv = f32_decode (usz lb) and ubv = f32_decode (usz ub) in
+      let lbv = f32_decode (usz (unf lb)) and ubv = f32_decode (usz (unf ub)) in
       let size_ok v = Zar.to_int (log2_bound_k v) <= 14 && (bits p + bits q) * (1 lsl Zar.to_int (log2_bound_k v)) <= 40_000_000 in
       let one lower v =
         let rec go = function
@@ -102,17 +121,40 @@ let judge_log2 ?(cls = "") (p : Zar.t) (q : Zar.t) got =
         go [ 96; 320; 1200 ]
       in
       let l = one true lbv and u = one false ubv in
-      let extra = "cls=log2-" ^ cls in
+      let extra = "cls=log2-" ^ cls ^ fid in
       if Zar.equal l Zar.zero || Zar.equal u Zar.zero then
         fail (Printf.sprintf "lb<=log2(x)<=ub_violated_%s%s" (if Zar.equal l Zar.zero then "L" else "") (if Zar.equal u Zar.zero then "U" else ""))
       else if Zar.equal l (zi 2) || Zar.equal u (zi 2) then skip "log2-undecided"
       else pass ~extra ()
   | _ -> fail "ok lb ub"
 
-let judge_log2_value ?(cls = "") (num : Zar.t) (den : Zar.t) got =
+(* the dyadic fraction m / 2^k as the f32 bit pattern it is exactly (None if it is not an f32) *)
+let dyadic_f32 (m, k) =
+  let k = let rec n = function O -> 0 | S x -> 1 + n x in n k in
+  if Zar.sign m = 0 then Some "0"
+  else
+    let nb = Zar.numbits m in
+    if nb > 24 then None
+    else
+      let m24 = Zar.shift_left m (24 - nb) in
+      let e = nb - 1 - k in
+      Some (Printf.sprintf "%x" (((e + 127) lsl 23) lor (Zar.to_int m24 land 0x7fffff)))
+
+let judge_log2_value ?(cls = "") ?(nostd_model = false) (num : Zar.t) (den : Zar.t) got =
   (* value num/den, den > 0; sign ignored; zero -> (-inf, -inf) *)
-  if Zar.sign num = 0 then expect ~nt:false ("ok " ^ neg_inf ^ " " ^ neg_inf) got
-  else judge_log2 ~cls (Zar.abs num) den got
+  let ns = (match List.rev got with "ns" :: _ -> true | _ -> false) in
+  let got = List.filter (fun t -> t <> "ns") got in
+  let got = List.map unf got in
+  (* fidelity of the no_std table model (u8 / u16 values in the no_std build only) *)
+  let fid =
+    if ns && nostd_model && Zar.leq (Zar.abs num) (zi 65535) then
+      let text = match nostd_log2_u16 (Zar.abs num) with
+        | None -> "ok " ^ neg_inf ^ " " ^ neg_inf
+        | Some (l, u) -> (match dyadic_f32 l, dyadic_f32 u with Some a, Some b -> "ok " ^ a ^ " " ^ b | _ -> "?") in
+      " path=nostd-table " ^ same text got
+    else if ns then " path=nostd" else " path=std" in
+  if Zar.sign num = 0 then expect ~nt:false ~extra:fid ("ok " ^ neg_inf ^ " " ^ neg_inf) got
+  else judge_log2 ~cls ~fid (Zar.abs num) den got
 
 let float_value v =
   match v with
@@ -121,16 +163,19 @@ let float_value v =
 
 (* ------------------------------------------------------------------ remove *)
 let judge_remove x f got =
-  if remove_none x f then expect ~nt:false ("ok none " ^ hx x) got
+  let fid = " " ^ same (res_text (function None -> "none " ^ hx x | Some (e, rest) -> "some " ^ hx e ^ " " ^ hx rest) (remove_asis fuel_small x f)) got in
+  if remove_none x f then expect ~nt:false ~extra:fid ("ok none " ^ hx x) got
   else
     match got, remove_spec x f with
     | [ "ok"; "some"; e; rest ], Some (e', rest') ->
         let e = usz e and rest = z rest in
         let want = "ok some " ^ hx e' ^ " " ^ hx rest' in
         if Zar.gt e (zi (bits x)) then fail want
-        else cert_verdict ~extra:(Printf.sprintf "cls=remove-e%d" (min 9 (Zar.to_int e'))) (remove_cert x f e rest && Zar.equal e e' && Zar.equal rest rest') want
+        else cert_verdict ~extra:(Printf.sprintf "cls=remove-e%d" (min 9 (Zar.to_int e')) ^ fid) (remove_cert x f e rest && Zar.equal e e' && Zar.equal rest rest') want
     | _, Some (e', rest') -> fail ("ok some " ^ hx e' ^ " " ^ hx rest')
     | _, None -> fail "spec"
+
+let ty_bits t = match t with "u8" | "i8" -> 8 | "u16" | "i16" -> 16 | "u32" | "i32" -> 32 | "u128" | "i128" -> 128 | _ -> 64
 
 let judge op args got =
   let a i = z (List.nth args i) in
@@ -139,16 +184,21 @@ let judge op args got =
   let v =
     match op with
     | "gcd" | "ugcd" | "gcd_ui" | "gcd_iu" -> judge_gcd (a 1) (a 2) got
-    | "pgcd" -> judge_gcd (a 1) (a 2) got
-    | "gcd_ext" | "ugcd_ext" | "gcd_ext_ui" | "gcd_ext_iu" | "pgcd_ext" -> judge_gcd_ext (a 1) (a 2) got
+    | "pgcd" -> judge_gcd ~asis:(res_text hx (prim_gcd_asis fuel_small (zi (ty_bits (s 0))) (a 1) (a 2))) (a 1) (a 2) got
+    | "gcd_ext" | "ugcd_ext" | "gcd_ext_ui" | "gcd_ext_iu" -> judge_gcd_ext (a 1) (a 2) got
+    | "pgcd_ext" ->
+        let asis = res_text (fun ((g, cs), ct) -> hx g ^ " " ^ hx cs ^ " " ^ hx ct) (prim_gcd_ext_asis fuel_small (a 1) (a 2)) in
+        judge_gcd_ext ~asis (a 1) (a 2) got
     | "usqrt" -> expect ~extra:(Printf.sprintf "cls=sqrt-w%d" (min 9 ((bits (a 0) + 63) / 64))) ("ok " ^ hx (Zar.sqrt (a 0))) got
     | "psqrt" -> expect ("ok " ^ hx (Zar.sqrt (a 1))) got
     | "usqrt_rem" -> let (r, e) = sqrt_rem_spec (a 0) in
-        expect ~extra:(Printf.sprintf "cls=sqrtrem-w%d" (min 9 ((bits (a 0) + 63) / 64))) ("ok " ^ hx r ^ " " ^ hx e) got
+        (* multi-word values: the pre-/post-shift model around the kernel contract *)
+        let fid = if bits (a 0) > 128 then (let (r', e') = sqrt_rem_large_gen true (zi 64) (a 0) in " " ^ same ("ok " ^ hx r' ^ " " ^ hx e') got) else "" in
+        expect ~extra:(Printf.sprintf "cls=sqrtrem-w%d" (min 9 ((bits (a 0) + 63) / 64)) ^ fid) ("ok " ^ hx r ^ " " ^ hx e) got
     | "psqrt_rem" -> let (r, e) = sqrt_rem_spec (a 1) in expect ("ok " ^ hx r ^ " " ^ hx e) got
     | "isqrt" -> if Zar.sign (a 0) < 0 then expect ~nt:false "panic RootNegative" got else expect ("ok " ^ hx (Zar.sqrt (a 0))) got
     | "ucbrt" -> judge_root ~signed:false (zi 3) (a 0) got
-    | "pcbrt" -> judge_root ~signed:false (zi 3) (a 1) got
+    | "pcbrt" -> judge_root ~model:false ~signed:false (zi 3) (a 1) got
     | "icbrt" -> judge_root ~signed:true (zi 3) (a 0) got
     | "unth" -> judge_root ~signed:false (n 1) (a 0) got
     | "inth" -> judge_root ~signed:true (n 1) (a 0) got
@@ -156,12 +206,12 @@ let judge op args got =
     | "pcbrt_rem" -> judge_root_rem (zi 3) (a 1) got
     | "uilog" | "iilog" -> judge_ilog (a 0) (a 1) got
     | "ulog2b" | "ilog2b" -> judge_log2_value ~cls:(Printf.sprintf "int-w%d" (min 9 ((bits (a 0) + 63) / 64))) (a 0) Zar.one got
-    | "plog2b" -> judge_log2_value ~cls:(s 0) (a 1) Zar.one got
+    | "plog2b" -> judge_log2_value ~cls:(s 0) ~nostd_model:true (a 1) Zar.one got
     | "f32log2b" | "f64log2b" -> (
         let v = if op = "f32log2b" then f32_decode (n 0) else f64_decode (n 0) in
         match v with
         | FNan -> (match got with "panic" :: _ -> pass ~nt:false ~extra:"cls=log2-nan" () | _ -> fail "panic (NaN has no logarithm)")
-        | FInf _ -> expect ~nt:false ("ok " ^ pos_inf ^ " " ^ pos_inf) got
+        | FInf _ -> expect ~nt:false ("ok " ^ pos_inf ^ " " ^ pos_inf) (List.map unf (List.filter (fun t -> t <> "ns") got))
         | FFin (m, e) -> (match float_value v with Some (p, q) -> judge_log2_value ~cls:(String.sub op 0 3) p q got | None -> fail "spec"))
     | "flog2b" ->
         let base = n 0 and sg = s 1 in
